@@ -57,6 +57,7 @@ type Engine struct {
 	summaries   map[*ssa.Function]*NameSet
 	inSummary   map[*ssa.Function]bool
 	probes      map[*ssa.Function]map[int]*NameSet
+	probesAll   map[*ssa.Function]map[int]*NameSet
 	anchorOrds  map[*ssa.Function]map[anchorKey]int
 	pendingTargets map[*ssa.Function]bool
 	plainRecvTypes map[string]bool
@@ -85,7 +86,7 @@ func loadEngine(repo string) (*Engine, error) {
 		funcs: map[string]*ssa.Function{}, contracts: map[string]*Contract{}, ghosts: map[string]types.Type{}, chanInv: map[string]ast.Expr{},
 		fieldIDs: map[string]int{}, fieldByID: map[int]escField{}, escFields: map[string][]escField{}, tagIDs: map[string]int{},
 		knownSet: map[string]bool{}, nextForTag: foreignTagBase + 16,
-		inlineMemo: map[*ssa.Function]bool{}, summaries: map[*ssa.Function]*NameSet{}, inSummary: map[*ssa.Function]bool{}, probes: map[*ssa.Function]map[int]*NameSet{}, anchorOrds: map[*ssa.Function]map[anchorKey]int{}, pendingTargets: map[*ssa.Function]bool{}, plainRecvTypes: map[string]bool{},
+		inlineMemo: map[*ssa.Function]bool{}, summaries: map[*ssa.Function]*NameSet{}, inSummary: map[*ssa.Function]bool{}, probes: map[*ssa.Function]map[int]*NameSet{}, probesAll: map[*ssa.Function]map[int]*NameSet{}, anchorOrds: map[*ssa.Function]map[anchorKey]int{}, pendingTargets: map[*ssa.Function]bool{}, plainRecvTypes: map[string]bool{},
 		mutGlobals: map[*ssa.Global]bool{}, globalAlias: map[string]string{}, globalInit: map[*ssa.Global]ssa.Value{},
 	}
 	e.sizes = types.SizesFor("gc", "amd64")
@@ -498,6 +499,7 @@ func (e *Engine) summary(fn *ssa.Function) *NameSet {
 		// partial result (depends on a function still being summarised): do not cache
 		delete(e.summaries, fn)
 		delete(e.probes, fn)
+		delete(e.probesAll, fn)
 	}
 	return ns
 }
@@ -631,6 +633,7 @@ func (e *Engine) probeWrites(fn *ssa.Function) map[int]*NameSet {
 		return nil
 	}
 	e.probes[fn] = probe.blockWrites
+	e.probesAll[fn] = probe.blockWritesAll
 	// anchor ordinals in source order
 	ords := map[anchorKey]int{}
 	byName := map[string][]anchorKey{}
